@@ -2,6 +2,7 @@ import EinxModel.Driver.Util
 import EinxModel.Driver.Registry
 import EinxModel.Driver.Update
 import EinxModel.Driver.Notation
+import EinxModel.Driver.NotationNF
 import EinxModel.Driver.Solve
 import EinxModel.Driver.Cse
 import EinxModel.Driver.CseTrees
@@ -31,6 +32,7 @@ def dispatch (j : Json) : R Json := do
   | "registry" => Einx.Driver.Registry.handle j
   | "sched" | "serial_outcomes" | "explore" => Einx.Driver.Concurrent.handle j
   | "notation" => Einx.Driver.Notation.handle j
+  | "notation_nf" => Einx.Driver.NotationNF.handle j
   | "cache-table" | "freeze" | "pyeq" | "pyhash" | "memo" | "stack" => Einx.Driver.Cache.handle j
   | "cache_sched" | "cache_explore" => Einx.Driver.CacheConc.handle j
   | "solve" | "checksat" | "checkaxes" => Einx.Driver.Solve.handle j
